@@ -80,8 +80,27 @@ def failLine (clauses classes : List String) (model : String) : String :=
   let cs := if classes.isEmpty then "" else " class=" ++ "+".intercalate classes.eraseDups
   s!"fail {cl}{cs} model={model}"
 
+/-- `|s| ≤ bound` for a decimal literal `[-]digits[.digits]` (the coordinates the generator writes) -/
+def decWithin (s : String) (bound : Nat) : Bool :=
+  let u := if s.startsWith "-" then (s.drop 1).toString else s
+  match u.splitOn "." with
+  | [i] => (match i.toNat? with | some n => n ≤ bound | none => false)
+  | [i, f] =>
+    (match i.toNat? with
+     | some n => n < bound || (n == bound && f.toList.all (· == '0'))
+     | none => false)
+  | _ => false
+
 def handle (op : String) (args impl : List String) : Option String :=
   if isPanic impl && op != "sun.accept" then some s!"fail no-panic class=panic model=-" else
+  -- the suites only write coordinates within the documented ranges: a refusal is a failure of the
+  -- acceptance clause
+  if impl == ["rejected"] && (op == "sun.events" || op == "sun.scan") then
+    (match args with
+     | lat :: lon :: _ =>
+       if decWithin lat 90 && decWithin lon 180 then some "fail accept-iff-valid class=none model=accepted"
+       else some "bad coordinates-out-of-range-in-suite"
+     | _ => none) else
   match op, args with
   | "sun.ast", [] =>
     match pExpr impl with
